@@ -44,7 +44,7 @@ def header_expected(root: str, module: str) -> str:
 
 def run_history(acc: Acc, r: random.Random, workdir: str, hid: int, n_steps: int) -> None:
 	from rogw.tranp.data.meta.header import MetaHeader
-	shape = r.choice(['chain', 'diamond'])
+	shape = r.choice(['chain', 'diamond', 'deep', 'deep'])
 	h = History(r, shape, workdir, f'h{hid}')
 	keys = list(h.hp.names)
 	p, _ = h.run(False)
